@@ -3,6 +3,8 @@
 #include "util/utf8.hh"
 #include "preprocess/base64.hh"
 #include "util/exception.hh"
+#include <cstring>
+#include <cstdlib>
 
 using namespace pv;
 
@@ -55,6 +57,155 @@ static Reg r_b64_dec("b64.dec", [](const std::vector<std::string> &a) -> std::st
     return "ERR:length";
   }
   return "ok " + hex(out);
+});
+
+// ---------------------------------------------------------------- murmur (C14)
+#include "util/murmur_hash.hh"
+static std::string murmur_op(const std::vector<std::string> &a, bool native) {
+  std::string bs;
+  if (a.size() != 3 || !unhex(a[1], bs)) return "bad-op";
+  uint64_t seed = strtoull(a[0].c_str(), NULL, 10);
+  size_t align = strtoul(a[2].c_str(), NULL, 10) & 7;
+  // the string ends exactly at the end of the allocation (ASan red zone follows) and starts
+  // at address = 16k + align
+  size_t total = align + bs.size();
+  size_t padded = (total + 15) / 16 * 16;
+  size_t lead = padded - total;            // keep (start % 8) == align % 8 ... start = base + lead + align
+  lead = lead / 8 * 8;
+  char *base = new char[lead + total];
+  char *start = base + lead + align;
+  memcpy(start, bs.data(), bs.size());
+  uint64_t h = native ? util::MurmurHashNative(start, bs.size(), seed) : util::MurmurHash64A(start, bs.size(), seed);
+  delete[] base;
+  return "ok " + std::to_string(h);
+}
+static Reg r_murmur_hash("murmur.hash", [](const std::vector<std::string> &a) { return murmur_op(a, false); });
+static Reg r_murmur_native("murmur.native", [](const std::vector<std::string> &a) { return murmur_op(a, true); });
+
+// ---------------------------------------------------------------- fields (C10)
+#include "preprocess/fields.hh"
+static std::string ranges_str(const std::vector<preprocess::FieldRange> &v) {
+  if (v.empty()) return "ok -";
+  std::string o = "ok ";
+  for (size_t i = 0; i < v.size(); ++i) {
+    if (i) o += ",";
+    o += std::to_string(v[i].begin) + ":" + std::to_string(v[i].end);
+  }
+  return o;
+}
+static bool parse_ranges(const std::string &s, std::vector<preprocess::FieldRange> &out) {
+  out.clear();
+  if (s == "-") return true;
+  size_t i = 0;
+  while (i < s.size()) {
+    size_t c = s.find(':', i);
+    if (c == std::string::npos) return false;
+    size_t e = s.find(',', c);
+    if (e == std::string::npos) e = s.size();
+    preprocess::FieldRange f;
+    f.begin = strtoul(s.substr(i, c - i).c_str(), NULL, 10);
+    f.end = strtoul(s.substr(c + 1, e - c - 1).c_str(), NULL, 10);
+    out.push_back(f);
+    i = e + 1;
+  }
+  return true;
+}
+static Reg r_fields_parse("fields.parse", [](const std::vector<std::string> &a) -> std::string {
+  std::string arg;
+  if (a.size() != 1 || !unhex(a[0], arg)) return "bad-op";
+  std::vector<preprocess::FieldRange> v;
+  try { preprocess::ParseFields(arg.c_str(), v); } catch (const util::Exception &) { return "ERR:badfield"; }
+  return ranges_str(v);
+});
+static Reg r_fields_pd("fields.parsedefrag", [](const std::vector<std::string> &a) -> std::string {
+  std::string arg;
+  if (a.size() != 1 || !unhex(a[0], arg)) return "bad-op";
+  std::vector<preprocess::FieldRange> v;
+  try { preprocess::ParseFields(arg.c_str(), v); preprocess::DefragmentFields(v); } catch (const util::Exception &) { return "ERR:badfield"; }
+  return ranges_str(v);
+});
+struct RecordCallback {
+  std::vector<std::string> pieces;
+  void operator()(util::StringPiece p) { pieces.push_back(std::string(p.data(), p.size())); }
+};
+struct RecordCallbackBool {
+  std::vector<std::string> pieces;
+  bool operator()(util::StringPiece p) { pieces.push_back(std::string(p.data(), p.size())); return true; }
+};
+template <class CB> static std::string pieces_str(const CB &cb) {
+  std::string o = "ok " + std::to_string(cb.pieces.size());
+  for (const std::string &p : cb.pieces) o += " " + hex(p);
+  return o;
+}
+static Reg r_fields_range("fields.range", [](const std::vector<std::string> &a) -> std::string {
+  std::string line, d;
+  std::vector<preprocess::FieldRange> v;
+  if (a.size() != 3 || !unhex(a[0], line) || !unhex(a[1], d) || d.size() != 1 || !parse_ranges(a[2], v)) return "bad-op";
+  char *buf = new char[line.size()];          // exact size: any read past the line is an ASan report
+  memcpy(buf, line.data(), line.size());
+  RecordCallback cb;
+  preprocess::RangeFields(util::StringPiece(buf, line.size()), v, d[0], cb);
+  std::string o = pieces_str(cb);
+  delete[] buf;
+  return o;
+});
+static Reg r_fields_indiv("fields.indiv", [](const std::vector<std::string> &a) -> std::string {
+  std::string line, d;
+  std::vector<preprocess::FieldRange> v;
+  if (a.size() != 3 || !unhex(a[0], line) || !unhex(a[1], d) || d.size() != 1 || !parse_ranges(a[2], v)) return "bad-op";
+  char *buf = new char[line.size()];
+  memcpy(buf, line.data(), line.size());
+  RecordCallbackBool cb;
+  preprocess::IndividualFields(util::StringPiece(buf, line.size()), v, d[0], cb);
+  std::string o = pieces_str(cb);
+  delete[] buf;
+  return o;
+});
+
+// ---------------------------------------------------------------- hash table (C13)
+#include "util/probing_hash_table.hh"
+namespace {
+struct TEntry {
+  typedef uint64_t Key;
+  uint64_t key;
+  uint64_t value;
+  uint64_t GetKey() const { return key; }
+  void SetKey(uint64_t to) { key = to; }
+};
+typedef util::AutoProbing<TEntry, util::IdentityHash> TTable;
+}
+// table.run <op,op,...> [layout]   op = i:<k>:<v> | f:<k>
+// answer per op: i -> t:<storedvalue> | n:<storedvalue> ; f -> <value> | -   ; then "|buckets"
+// with "layout" as 2nd arg the final bucket array (keys and values) is appended.
+static Reg r_table_run("table.run", [](const std::vector<std::string> &a) -> std::string {
+  if (a.size() < 1) return "bad-op";
+  TTable t;
+  std::string o = "ok";
+  std::istringstream is(a[0]);
+  std::string op;
+  while (std::getline(is, op, ',')) {
+    if (op.empty()) continue;
+    o += " ";
+    if (op[0] == 'i') {
+      size_t c = op.find(':', 2);
+      TEntry e;
+      e.key = strtoull(op.substr(2, c - 2).c_str(), NULL, 10);
+      e.value = strtoull(op.substr(c + 1).c_str(), NULL, 10);
+      TTable::MutableIterator it;
+      bool found = t.FindOrInsert(e, it);
+      o += (found ? "t:" : "n:") + std::to_string(it->value);
+    } else {
+      uint64_t k = strtoull(op.substr(2).c_str(), NULL, 10);
+      TTable::ConstIterator it;
+      if (t.Find(k, it)) o += std::to_string(it->value); else o += "-";
+    }
+    o += "|" + std::to_string(t.RawEnd() - t.RawBegin());
+  }
+  if (a.size() >= 2 && a[1] == "layout") {
+    o += " L";
+    for (TTable::ConstIterator i = t.RawBegin(); i != t.RawEnd(); ++i) o += " " + std::to_string(i->key) + ":" + std::to_string(i->key ? i->value : 0);
+  }
+  return o;
 });
 
 int main() { return pv::main_loop(); }
